@@ -1435,7 +1435,8 @@ def rotor_between_objects_root(X1, X2):
         C = 1 + gamma*(X2 * X1)
         if abs(C.value[0]) < 1E-6:
             R = (I5eo * X21)(2).normal()
-            return (R * rotor_between_objects_root(X1, -X2)).normal()
+            R2 = rotor_between_objects_root(apply_rotor(X1, R), X2).normal()
+            return (R2 * R).normal()
         return pos_twiddle_root(C)[0].normal()
     else:
         C = 1 - X21
